@@ -475,4 +475,94 @@ theorem C05_staged_marker_last_good :
     GoodMid [.remove .nodal, .remove .elemental, .remove .constraints, .remove .settings,
              .write .elements 2, .write .nodal 2, .write .nodes 2, .write .settings 2] B false = true := by decide
 
+/-! ### reads with options (`read_mesh_only`, `read_npy`, `save`) -/
+
+/-- the node and the element table come from ONE object -/
+def MeshCoherent (r : Dir) : Prop := ∃ t : Nat, r .nodes = some (.ok t) ∧ r .elements = some (.ok t)
+
+theorem coherent_mesh (d : Dir) (h : Coherent d) : MeshCoherent (meshPart d) := by
+  obtain ⟨x, mo, rfl⟩ := h
+  exact ⟨x.tag, rfl, rfl⟩
+
+/-- with the default options `readOpt` is the read of the older machines -/
+theorem C05_read_opt_default (d : Dir) (src : Obj) (m : List Step) : readOpt false ROpt.default d src m = readDirG d src m := by
+  unfold readOpt readDirG cacheTrusted ROpt.default
+  cases h : (d .sentinel).isSome <;> simp
+  simp at h
+  simp [h]
+
+/-- a read with any options preserves the invariant (it writes nothing, or it performs a complete save of the parse) -/
+theorem C05_read_opt_inv (o : ROpt) (d : Dir) (src : Obj) (m : List Step) (hg : GoodMid m src false = true) (h : DInv d) :
+    DInv (readOpt false o d src m).2 := by
+  unfold readOpt
+  simp only
+  split
+  · rw [C05_full_save_plan m src false hg]; exact fun _ => ⟨src, false, rfl⟩
+  · exact h
+
+/-- **C05_read_opt_safe**: on a directory satisfying the invariant a read with ANY options returns the parse of the source
+or the files of one complete save - for `read_mesh_only=True` the node and element tables of ONE object. -/
+theorem C05_read_opt_safe (o : ROpt) (d : Dir) (src : Obj) (m : List Step) (h : DInv d) :
+    if o.meshOnly then MeshCoherent (readOpt false o d src m).1 else Coherent (readOpt false o d src m).1 := by
+  have hc : Coherent (if cacheTrusted false o d then d else expected src false) := by
+    unfold cacheTrusted
+    split
+    · rename_i hs
+      simp only [Bool.false_and, Bool.or_false, Bool.and_eq_true] at hs
+      exact h hs.2
+    · exact ⟨src, false, rfl⟩
+  unfold readOpt
+  cases hm : o.meshOnly
+  · simpa [hm] using hc
+  · simpa [hm] using coherent_mesh _ hc
+
+/-- **C05_history_inv_opt**: the invariant holds after every history of saves, interrupted saves, (interrupted) default
+reads AND reads with any combination of `read_mesh_only` / `read_npy` / `save`, each with any good plan. -/
+theorem C05_history_inv_opt (ops : List XOp) (hg : ∀ op ∈ ops, op.good = true) (d0 : Dir) (h0 : d0 .sentinel = none) :
+    DInv (ops.foldl xstep d0) := by
+  suffices ∀ d, DInv d → DInv (ops.foldl xstep d) from this _ (by intro h; simp [h0] at h)
+  induction ops with
+  | nil => intro d h; exact h
+  | cons op ops ih =>
+    intro d h
+    apply ih (fun o ho => hg o (List.mem_cons_of_mem _ ho))
+    have hop := hg op (by simp)
+    cases op with
+    | u op =>
+      -- one step of the older machine from a directory satisfying the invariant
+      cases op with
+      | read src m => exact C05_read_inv_plan d src m hop h
+      | save x mo m =>
+        simp only [xstep, ustep]; rw [C05_full_save_plan m x mo hop]; exact fun _ => ⟨x, mo, rfl⟩
+      | interrupt x mo m k torn unw =>
+        simp only [XOp.good, UOp.good, Bool.and_eq_true] at hop
+        exact C05_crash_inv_unwind d x mo m hop.1 k torn unw hop.2 h
+      | readInterrupt src m k torn unw =>
+        simp only [XOp.good, UOp.good, Bool.and_eq_true] at hop
+        exact C05_read_interrupt_inv d src m hop.1 k torn unw hop.2 h
+    | readOpt o src m => exact C05_read_opt_inv o d src m hop h
+
+/-- **C05_crash_safe_opt**: … hence a read with any options after any such history returns the parse of the source or one
+complete saved object (mesh-only: the node and element tables of one object). -/
+theorem C05_crash_safe_opt (ops : List XOp) (hg : ∀ op ∈ ops, op.good = true) (d0 : Dir) (h0 : d0 .sentinel = none)
+    (o : ROpt) (src : Obj) (m : List Step) :
+    if o.meshOnly then MeshCoherent (readOpt false o (ops.foldl xstep d0) src m).1
+    else Coherent (readOpt false o (ops.foldl xstep d0) src m).1 :=
+  C05_read_opt_safe o _ src m (C05_history_inv_opt ops hg d0 h0)
+
+/-- non-vacuity: a mesh-only read after a second save of `B` that died after rewriting the nodes (no sentinel: the parse),
+and after the completed save (the cache of `B`) -/
+example : (readOpt false ⟨true, true, true⟩ (crashSteps (wrap (mid B false) B.tag) (fullSave Cfg.fixed empty A false) 6 false)
+      ⟨3, true, false, false⟩ []).1 .nodes = some (.ok 3) ∧
+    (readOpt false ⟨true, true, true⟩ (fullSave Cfg.fixed empty B false) ⟨3, true, false, false⟩ []).1 .elements = some (.ok 2) := by
+  decide
+
+/-- the slip "a mesh-only read is served from femio_nodes + femio_elements whenever both exist": after a second save of `B`
+over the complete cache of `A` that dies after rewriting the nodes (6 effects) there is no sentinel, and the mesh-only read
+returns the nodes of `B` with the elements of `A` - neither the parse of the source (tag 3) nor one saved object -/
+theorem C05_mesh_only_by_existence_counterexample :
+    let d := crashSteps (wrap (mid B false) B.tag) (fullSave Cfg.fixed empty A false) 6 false
+    let r := (readOpt true ⟨true, true, true⟩ d ⟨3, true, false, false⟩ []).1
+    d .sentinel = none ∧ r .nodes = some (.ok 2) ∧ r .elements = some (.ok 1) := by decide
+
 end Femio.C05
